@@ -11,6 +11,7 @@ requests (byte strings and texts are arrays of numbers):
   {"op":"decode","v":n,"uni":b,"bytes":[…]}          → {"g":G} | {"err":[id,arg]}
   {"op":"kv2","flat":b,"cull":b,"g":G2}              → {"text":[…]} | {"err":…}
   {"op":"kv2parse","text":[cp…],"fold":[[cp,[cp…]]…]}→ {"g":G2'} | {"err":…}
+  {"op":"number","g":G (any order; refs are positions),"root":n} → {"order":[loc…],"g":G indexed,"closed":b}
   {"op":"kv1","t":K,"fold":[[[cp…],[cp…]]…]}         → {"e":E,"back":K}
 G  = {"elems":[{"type":[…],"name":[…],"uuid":[16],"attrs":[{"name":[…],"t":0..13,"arr":b,"vals":[V…]}]}]}
 V  = ["n"] | ["s",[uuid text]] | ["i",idx] | ["f",[ints]] | ["t",[bytes]] | ["b",[bytes]]
@@ -204,6 +205,11 @@ def handle (j : Json) : Except String Json := do
     match Kv2.parse Gen.Tok.tables T f s with
     | .error e => pure (Json.mkObj [("err", Json.str e)])
     | .ok ns => pure (Json.mkObj [("nodes", jsonOfNodes ns)])
+  | "number" =>
+    let g ← graphOf (← j.getObjVal? "g")
+    let root ← j.getObjValAs? Nat "root"
+    pure (Json.mkObj [("order", Wire.ofNatList (number g root)), ("g", jsonOfGraph (indexed g root)),
+      ("closed", Json.bool (heapClosed g))])
   | "kv1" =>
     let t ← kvOf (← j.getObjVal? "t")
     let f ← strFoldOf (← j.getObjVal? "fold")
